@@ -80,7 +80,7 @@ EXHAUSTIVE_SCOPE = {
              "schedule patterns with and without the flush timer",
     "thorough": "step: scripts over {a,Enter,CPR,c-j,b} len<=3 all chunkings (len 4: 2 chunkings), 4 schedule "
                 "patterns; key-buffer layer: scripts over {a,Enter,c-x,c-space c-c,c-c,esc-Enter,CPR,esc-q} len<=2 "
-                "all chunkings (len 3: 3 chunkings; len 4 over the first five: 2 chunkings), patterns with and "
+                "all chunkings (len 3 and, over the first five, len 4: 2 chunkings), patterns with and "
                 "without the flush timer"}
 TRUSTED = ["harness/c17.py: token table (bytes <-> key code), the stepper that calls the registered reader callback, "
            "the comparison of states/results",
@@ -123,7 +123,13 @@ KEY_CODE = {
     Keys.Escape: BASE + 12, Keys.ControlX: BASE + 13, Keys.ControlAt: BASE + 14,
 }
 FIN = ("ENTER", "CJ", "CC", "EENTER")
-WATCHDOG_S = float(os.environ.get("VERIF_C17_WATCHDOG", "8"))
+WATCHDOG_S = float(os.environ.get("VERIF_C17_WATCHDOG", "10"))
+
+
+def watchdog_s(case) -> float:
+    """per prompt; long lines get more time (the machine may be heavily loaded)"""
+    n = len(case.get("script") or ())
+    return WATCHDOG_S + 0.02 * n
 
 
 def tok_bytes(t: str) -> bytes:
@@ -348,7 +354,10 @@ async def _step_async(case) -> _Run:
                 # let the key processor's flush timer (timeoutlen = 1 ms here) fire; when the
                 # flushed key ends the application, the application finishes
                 if task is not None and not app.is_done:
-                    await asyncio.sleep(0.03)
+                    ft = app.key_processor._flush_wait_task
+                    if ft is not None and not ft.done():
+                        # (waiting for the timer task itself: no race with a stalled machine)
+                        await asyncio.wait({ft}, timeout=WATCHDOG_S)
                     if app.is_done or not app._is_running:
                         await collect()
             observe()
@@ -426,7 +435,7 @@ def _e2e_sync(case) -> _Run:
                         loop.call_soon_threadsafe(stop)
                     except RuntimeError:
                         pass
-            timer = threading.Timer(WATCHDOG_S, wd)
+            timer = threading.Timer(watchdog_s(case), wd)
             timer.daemon = True
             timer.start()
             try:
@@ -444,7 +453,7 @@ def _e2e_sync(case) -> _Run:
             if pd:
                 time.sleep(pd / 1000.0)
         if writer is not None:
-            writer.join(WATCHDOG_S * 2)
+            writer.join(watchdog_s(case) * 2)
         run.leftover = [c for c in (kp_code(x) for x in _drain(inp)) if c != -3]
     return run
 
@@ -467,7 +476,7 @@ async def _e2e_async(case) -> _Run:
         wt = asyncio.ensure_future(w())
         for i in range(k):
             try:
-                r = await asyncio.wait_for(session.prompt_async(), WATCHDOG_S)
+                r = await asyncio.wait_for(session.prompt_async(), watchdog_s(case))
                 run.results.append((-1, r))
             except Abort:
                 run.results.append((-2, session.default_buffer.text))
@@ -476,7 +485,7 @@ async def _e2e_async(case) -> _Run:
             except BaseException as e:  # noqa
                 run.results.append((-9, "EXC:" + type(e).__name__))
         try:
-            await asyncio.wait_for(wt, WATCHDOG_S * 2)
+            await asyncio.wait_for(wt, watchdog_s(case) * 2)
         except BaseException:  # noqa
             pass
         run.leftover = [c for c in (kp_code(x) for x in _drain(inp)) if c != -3]
@@ -875,8 +884,18 @@ def mk_e2e_b(rng, mode, units):
         case["cuts"] = []
     else:
         # never cut right behind a key that waits for a second key (no timer may decide the result)
-        ok = [j for j in range(1, len(toks))
-              if toks[j - 1] not in ("CX", "CSPACE") and not (toks[j - 1] == "CC" and j >= 2 and toks[j - 2] == "CSPACE")]
+        def pending_before(j):
+            real = [t for t in toks[:j] if not t.startswith("CPR:")]
+            if not real:
+                return False
+            if real[-1] == "CX":
+                # an even number of c-x in a row is complete (c-x c-x), an odd number waits
+                n = 0
+                while n < len(real) and real[-1 - n] == "CX":
+                    n += 1
+                return n % 2 == 1
+            return real[-1] == "CSPACE" or (real[-1] == "CC" and len(real) >= 2 and real[-2] == "CSPACE")
+        ok = [j for j in range(1, len(toks)) if not pending_before(j)]
         ncut = rng.choice([0, 1, 2, 3, len(toks)])
         case["cuts"] = sorted(set(rng.sample(ok, min(ncut, len(ok))))) if ok else []
         case["delays"] = [rng.choice([0, 0, 0, 1, 1, 2, 3]) for _ in range(rng.randrange(1, 5))]
@@ -996,7 +1015,7 @@ def cases(tier, rng):
                         continue
                     yield mk_step(pattern_events(toks, sizes, pat), k)
     # ---- random step cases
-    nstep = 120 if quick else 2000
+    nstep = 120 if quick else 1500
     for _ in range(nstep):
         nl = rng.choice([1, 2, 2, 3, 4])
         toks = inject_cpr(rng, rand_script(rng, nl, rich=True), p=rng.choice([0, 0.1, 0.3]))
@@ -1005,7 +1024,7 @@ def cases(tier, rng):
             k = max(1, k - 1)              # fewer prompts than lines: the rest must stay unconsumed
         yield mk_step(rand_events(rng, toks, k), k)
     # ---- end to end
-    ne2e = 160 if quick else 2000
+    ne2e = 160 if quick else 1500
     modes = ["pre", "thread", "threadbytes", "async"]
     for i in range(ne2e):
         mode = modes[i % 4]
@@ -1031,7 +1050,7 @@ def cases(tier, rng):
             if (quick and n == 3) or n == 4:
                 comps = [comps[0], comps[-1]]
             elif n == 3:
-                comps = [comps[0], comps[-1], comps[rng.randrange(1, len(comps) - 1)]]
+                comps = [comps[0], comps[rng.randrange(1, len(comps))]]
             for sizes in comps:
                 for pat in ("pre", "inter", "interT", "late"):
                     if pat == "pre" and len(sizes) > 1:
